@@ -137,9 +137,12 @@ def main(argv=None):
     stats, witness = {}, {}
     violations, harness_errors, samples = [], [], []
     timeouts = skipped = trivial = 0
+    units = exh_units = 0
     extras = []
     for r in results:
         ev += r['evaluations']
+        units += r.get('units', 0)
+        exh_units += r.get('exhaustive_units', 0)
         sigs.update(r['sigs'])
         monitors.update(r['monitors'])
         tags.update(r['tags'])
@@ -188,9 +191,11 @@ def main(argv=None):
 
     wall = time.time() - t0
     verdict = 'violated' if violations else ('inconclusive' if inconclusive else 'held')
+    count_units = bool(getattr(prop, 'COUNT_UNITS', False))
     coverage = {
-        'evaluations': int(ev),
-        'distinct_nontrivial': int(len(sigs)),
+        'evaluations': int(units if count_units else ev),
+        'distinct_nontrivial': int(len(sigs) + (exh_units if count_units else 0)),
+        'batches': int(ev),
         'rule': prop.RULE,
         'samples': samples[:4] if samples else [{'note': 'no generated case finished'}],
         'monitor_evaluations': dict(monitors),
@@ -234,7 +239,7 @@ def main(argv=None):
 
     # ---- report ---------------------------------------------------------
     print('%s %s seed=%d: %d cases (%d distinct non-trivial) in %.1fs on %d shards; monitors=%s'
-          % (pid, args.tier, args.seed, ev, len(sigs), wall, nshards, dict(monitors)))
+          % (pid, args.tier, args.seed, coverage['evaluations'], coverage['distinct_nontrivial'], wall, nshards, dict(monitors)))
     for ln in lines:
         print(ln)
     for h in harness_errors[:3]:
